@@ -9,7 +9,7 @@ EXTENDS IsoProgram
 
 CONSTANTS MaxFeat
 
-FeatureNames == << "pet", "loadable", "mutation", "refetch", "expose", "twin", "vars", "lazyEp" >>
+FeatureNames == << "pet", "loadable", "mutation", "refetch", "expose", "twin", "vars", "lazyEp", "strings" >>
 FeatureSet == {FeatureNames[i] : i \in DOMAIN FeatureNames}
 
 EntrypointD(on, name, dir) == [k |-> "entrypoint", on |-> on, name |-> name, dirs |-> <<[name |-> dir, args |-> <<>>]>>]
@@ -49,6 +49,12 @@ Feature(f) ==
                   << LinkedA("user", "", << <<"id", Var("id")>> >>,
                              << Scalar("name"), LinkedA("pets", "", << <<"first", Var("n")>> >>, <<Scalar("nickname")>>) >>) >>),
             Entrypoint("Query", "UserById") >>
+    [] f = "strings" ->    \* string values in which white space is SIGNIFICANT (runs of blanks, leading / trailing blanks), as an
+                           \* argument and as a variable default (added after seeded/C26-persisted-text-derived-by-split-whitespace)
+         << Field("Query", "Spaced", << VarDefD("s", Named("String"), StrV(<<112, 32, 32, 113>>)) >>,
+                  << LinkedA("search", "", << <<"text", StrV(<<32, 97, 32, 32, 98, 32>>)>> >>, <<Linked("asUser", <<Scalar("name")>>)>>),
+                     LinkedA("pets", "sp", << <<"after", Var("s")>> >>, <<Scalar("nickname")>>) >>),
+            Entrypoint("Query", "Spaced") >>
     [] f = "lazyEp" ->     \* a lazily loaded entrypoint
          << Field("Query", "Late", <<>>, << Linked("topPet", <<Scalar("nickname")>>) >>),
             EntrypointD("Query", "Late", "lazyLoad") >>
